@@ -7,7 +7,7 @@ from ..engine import Fail, Stratum
 from .. import exact as X, bridge as B, gen, genbody as GB, admit as A
 
 ID = "C02"
-USE_WITNESS = True
+WITNESS = ("eps", "round")
 RULE = (
     "K: generated convex polygon (3-8 vertices) or polyhedron (tetrahedra, boxes, parallelepipeds, prisms, "
     "pyramids, bipyramids, hulls) in arbitrary lattice pose; f: Point at each feature type, Line/HalfLine/Segment "
